@@ -1,0 +1,58 @@
+//go:build verif
+
+package lifecyclereconciler
+
+// Contracts checked by /verif/gocv (comment-only file; see /verif/DESIGN.md §3).
+//
+// Every destructive call of the reconciler is preceded, in the same evaluation, by: the clock reading, a due time of
+// the very rule that was evaluated computed from the listed timestamp, a positive filter verdict of that same rule on
+// the listed key and size; and it names exactly the listed object (ETag guard for current objects, version id for
+// versions). Loops are summarised (one arbitrary iteration), so this holds for every rule and every listed object.
+
+//@ func (*lifecycleReconcilerStorageMiddleware).expireObjectIfDue
+//@ mode effects
+//@ requires object != nil
+//@ effect[C25:expire-only-if-due-and-selected] every m.Next.DeleteObject(_, $b, $k, $opts)
+//@     needs before m.now() -> ($now)
+//@     needs before storage.LifecycleExpirationDueTime($rule, $created) -> ($due)
+//@     needs before storage.LifecycleRuleMatchesObject($rule2, $key, $size, _) -> ($sel)
+//@     where $due != nil && !$now.Before(*$due) && $created.Equal(object.LastModified) && $sel && $rule2 == $rule &&
+//@         $key == object.Key.String() && $size == object.Size && $b == bucketName && $k == object.Key &&
+//@         $opts != nil && $opts.VersionID == nil && $opts.IfMatchETag != nil && *$opts.IfMatchETag == object.ETag
+
+//@ func (*lifecycleReconcilerStorageMiddleware).expireNoncurrentObjectVersionIfDue
+//@ mode effects
+//@ requires version != nil
+//@ effect[C25:noncurrent-expire-only-if-due-and-selected] every m.Next.DeleteObject(_, $b, $k, $opts)
+//@     needs before m.now() -> ($now)
+//@     needs before storage.LifecycleNoncurrentExpirationDueTime($rule, $since) -> ($due)
+//@     needs before storage.LifecycleRuleMatchesObject($rule2, $key, $size, _) -> ($sel)
+//@     where $due != nil && !$now.Before(*$due) && $since.Equal(noncurrentSince) && $sel && $rule2 == $rule &&
+//@         $key == version.Key.String() && $size == version.Size && $b == bucketName && $k == version.Key &&
+//@         $opts != nil && $opts.VersionID != nil && *$opts.VersionID == version.VersionID &&
+//@         ($rule.NoncurrentVersionExpiration == nil || $rule.NoncurrentVersionExpiration.NewerNoncurrentVersions == nil ||
+//@             newerNoncurrentVersions >= int(*$rule.NoncurrentVersionExpiration.NewerNoncurrentVersions))
+
+//@ func (*lifecycleReconcilerStorageMiddleware).abortUploadIfDue
+//@ mode effects
+//@ effect[C25:abort-only-if-due-and-selected] every m.Next.AbortMultipartUpload(_, $b, $k, $u)
+//@     needs before m.now() -> ($now)
+//@     needs before storage.LifecycleAbortDueTime($rule, $initiated) -> ($due)
+//@     needs before storage.LifecycleRuleMatchesObject($rule2, $key, _, _) -> ($sel)
+//@     where $due != nil && !$now.Before(*$due) && $initiated.Equal(upload.Initiated) && $sel && $rule2 == $rule &&
+//@         $key == upload.Key.String() && $b == bucketName && $k == upload.Key && $u == upload.UploadId
+
+//@ func (*lifecycleReconcilerStorageMiddleware).expireObjectDeleteMarkerIfDue
+//@ mode effects
+//@ requires deleteMarker != nil
+//@ effect[C25:marker-expire-only-if-selected] every m.Next.DeleteObject(_, $b, $k, $opts)
+//@     needs before storage.LifecycleRuleMatchesObject(_, $key, _, _) -> ($sel)
+//@     where $sel && $key == deleteMarker.Key.String() && $b == bucketName && $k == deleteMarker.Key &&
+//@         $opts != nil && $opts.VersionID != nil && *$opts.VersionID == deleteMarker.VersionID
+
+// Expiration is preferred over transition: within one bucket pass no expiration sweep starts after a transition sweep.
+//@ func (*lifecycleReconcilerStorageMiddleware).reconcileBucket
+//@ mode effects
+//@ effect[C25:expiration-before-transition] every m.expireObjects(_, _, _, _) forbids before m.transitionObjects(_, _, _, _)
+//@ effect[C25:noncurrent-expiration-before-transition] every m.expireNoncurrentObjectVersions(_, _, _, _)
+//@     forbids before m.transitionNoncurrentObjectVersions(_, _, _, _)
